@@ -137,6 +137,7 @@ PROPS = {
             U("prio", "TestC20", q(1500), q(12000, 4), race=True),
             U("joinl", "TestC20", q(3000), q(20000, 2), race=True),
             U("limitl", "TestC20", q(3000), q(20000, 2), race=True),
+            U("pure", "TestC20", q(400), q(6000, 2), race=True),
         ],
         "assumptions": ["Go race detector (happens-before based; reports only races in executed schedules)", RAPID, "free-running scenarios are not pinned by the seed (the script is, the interleaving is not); a reported race is confirmed by re-running its script up to 10 times", "inside bubbles synctest.Wait adds happens-before edges between harness and discipline, which is why the real-time scenarios exist"],
     },
